@@ -1,7 +1,7 @@
 // C17 — the FUSE manager's persistent record equals its live mounts across re-init/restart.
 //
 // Real code under test: fusemanager.Server (Init / Mount / Check / Unmount / Close /
-// Status, fusestore.go's bolt records, restoreFuseInfo) and, for a sixth of the
+// Status, fusestore.go's bolt records, restoreFuseInfo) and, for a sixth (quick) / a tenth (thorough) of the
 // sequential cases, the real gRPC server plus fusemanager.NewManagerClient / Client
 // (client.go) over a unix socket.
 //
@@ -126,6 +126,9 @@ func runBatches(r *vf.Run, stage string, from, n, batch int, race bool) {
 			Race: race, Timeout: timeout, Attribution: []string{"fusemanager."},
 		})
 		open, lastEnd, _ := readJournal(journal)
+		if os.Getenv("C17_TRACE") != "" {
+			r.Logf("child %s [%d,%d) exit=%d sig=%q open=%d lastEnd=%d", stage, lo, hi, ex.ExitCode, ex.Signal, open, lastEnd)
+		}
 		if ex.TimedOut {
 			r.Inconclusive("watchdog: child stage " + stage + " timed out")
 			if open >= 0 {
@@ -174,7 +177,7 @@ func runBatches(r *vf.Run, stage string, from, n, batch int, race bool) {
 
 func caseDescriptor(r *vf.Run, stage string, idx int) string {
 	if stage == "seq" {
-		return genSeqCase(r.RNG(1, uint64(idx)), idx).desc()
+		return genSeqCase(r.RNG(1, uint64(idx)), idx, r.N(6, 10)).desc()
 	}
 	return genConcCase(r.RNG(2, uint64(idx)), idx).desc()
 }
@@ -270,7 +273,7 @@ func child(r *vf.Run) {
 		_ = jf.Sync()
 		dir := filepath.Join(r.Scratch, fmt.Sprintf("c%06d", i))
 		if r.Child == "seq" {
-			runSeqCase(r, genSeqCase(r.RNG(1, uint64(i)), i), dir)
+			runSeqCase(r, genSeqCase(r.RNG(1, uint64(i)), i, r.N(6, 10)), dir)
 		} else {
 			runConcCase(r, genConcCase(r.RNG(2, uint64(i)), i), dir)
 		}
